@@ -723,4 +723,19 @@ func genReflect(out *bufio.Writer, seed uint64, tier string) {
 			fmt.Fprintln(out, genReflectLine(r, wid, ids[r.Intn(len(ids))]))
 		}
 	}
+	// pairs inside the property statement (plain writer type, reader type that accepts what comes back): the SPEC verdict
+	// applies; RT37 reads every geometry through a geom.Geom field and has fields for the columns A, S, B, F
+	reps := 2
+	if tier == "thorough" {
+		reps = 12
+	}
+	for _, wid := range []string{"RT01", "RT02", "RT03", "RT04", "RT05", "RT26"} {
+		for k := 0; k < reps; k++ {
+			rid := wid
+			if wid == "RT26" || k%2 == 1 { // a geom.LineString field cannot be read back into
+				rid = "RT37"
+			}
+			fmt.Fprintln(out, genReflectLine(r, wid, rid))
+		}
+	}
 }
